@@ -374,3 +374,94 @@ def judge_corrupt(case, impl):
         return [(f"extras:wrong-exception:{impl['exc']}:{impl['site']}",
                  f"Deserializer rejected {impl['doc']} with {impl['exc']} ({impl['msg']}) instead of TypeError/ValueError")]
     return []
+
+
+# ------------------------------------------------------------------ C02: ill-typed constructor arguments
+
+CTOR_BAD = [5, 2.5, None, True, ["www.example.com"], {"host": "x"}, ("a", "b"), object, b"a.com", "n/a", "", -1, [], {}]
+CTOR_WRAPS = ["bare", "optional", "array", "deque", "set", "map", "map-key", "tuple2", "anyof-then-int", "array-of-optional"]
+
+
+def _ctor_field(leaf, wrap):
+    if wrap == "map-key":
+        return Map[LEAVES[leaf][0](), Integer()]
+    return build_field(leaf, wrap)
+
+
+def _ctor_value(leaf, wrap, bad):
+    """a value of the wrapped field with ONE leaf position holding `bad` (next to a valid leaf where there is room)"""
+    good = load(LEAVES[leaf][1][-1])
+    try:
+        hash(bad)
+        hashable = True
+    except TypeError:
+        hashable = False
+    if wrap in ("bare", "optional", "anyof-then-int"):
+        return bad
+    if wrap == "array":
+        return [good, bad]
+    if wrap == "deque":
+        import collections
+        return collections.deque([good, bad])
+    if wrap == "set":
+        return {good, bad} if hashable else None
+    if wrap == "map":
+        return {"k0": good, "k1": bad}
+    if wrap == "map-key":
+        return {good: 1, bad: 2} if hashable else None
+    if wrap == "tuple2":
+        return (bad, 3)
+    if wrap == "array-of-optional":
+        return [None, good, bad]
+    raise ValueError(wrap)
+
+
+def directed_ctor_cases():
+    out = []
+    for leaf in sorted(LEAVES):
+        for wrap in CTOR_WRAPS:
+            for bi in range(len(CTOR_BAD)):
+                out.append({"suite": "extras-ctor", "leaf": leaf, "wrap": wrap, "bad": bi})
+            out.append({"suite": "extras-ctor", "leaf": leaf, "wrap": wrap, "bad": None})    # the valid control
+    return out
+
+
+def run_ctor(case):
+    leaf, wrap = case["leaf"], case["wrap"]
+    res = {"site": f"{wrap}>{leaf}"}
+    try:
+        cls = type("X", (Structure,), {"f": _ctor_field(leaf, wrap), "_required": []})
+    except Exception as e:
+        return {"skip": f"class: {type(e).__name__}: {e}"[:200]}
+    if case["bad"] is None:
+        picks = [1, 1]       # (not the zero member of a Flag class: Python does not list it among the members)
+        v = build_value(leaf, wrap, picks) if wrap != "map-key" else {load(LEAVES[leaf][1][-1]): 1}
+        if wrap == "anyof-then-int":
+            v = 3          # the value of the LATER option: must be accepted
+        res["control"] = True
+    else:
+        v = _ctor_value(leaf, wrap, CTOR_BAD[case["bad"]])
+        if v is None and wrap in ("set", "map-key"):
+            return {"skip": "unhashable element cannot be put into the argument"}
+    res["value"] = repr(v)[:200]
+    try:
+        x = cls(f=v)
+        res["out"] = "accepted"
+        res["stored"] = repr(getattr(x, "f", None))[:200]
+    except Exception as e:
+        res["out"] = "rejected"
+        res["exc"] = type(e).__name__
+        res["documented_exc"] = isinstance(e, (TypeError, ValueError))
+        res["msg"] = str(e)[:200]
+    return res
+
+
+def judge_ctor(case, impl):
+    if "skip" in impl:
+        return []
+    if impl["out"] == "rejected" and not impl["documented_exc"]:
+        return [(f"extras:wrong-exception:{impl['exc']}:ctor:{impl['site']}",
+                 f"constructor rejected f={impl['value']} with {impl['exc']} ({impl['msg']}) instead of TypeError/ValueError")]
+    if impl.get("control") and impl["out"] == "rejected":
+        return [(f"extras:rejects-valid:ctor:{impl['site']}", f"constructor rejected the valid value f={impl['value']}: {impl['exc']}: {impl['msg']}")]
+    return []
